@@ -94,11 +94,32 @@ def source(kind="code"):
         "roots": {"query": "Query", "mutation": "Mut", "subscription": "Sub"},
         "default_resolver": OK + "#global",
     }
-    if kind == "sdl":
+    base, tail = split_src(kind)
+    if base == "sdl":
         for t in sm["types"]:
             for v in t.get("values") or ():
                 v.pop("value", None)
+    if tail:
+        # type-map ORDER axis: an unreferenced type of the given kind declared last, so that it is the last
+        # entry of schema.types (of the source and of every clone)
+        sm["types"].append(TAILS[tail]())
     return sm
+
+
+TAIL_KINDS = ("enum", "scalar", "input", "interface", "union")
+TAILS = {
+    "enum": lambda: T("enum", "Tail", values=[V("T1"), V("T2")]),
+    "scalar": lambda: T("scalar", "Tail"),
+    "input": lambda: T("input", "Tail", fields=[A("t", "Int")]),
+    "interface": lambda: T("interface", "Tail", fields=[F("t", "Int")]),
+    "union": lambda: T("union", "Tail", members=["Hide"]),
+}
+
+
+def split_src(src):
+    """'code' | 'sdl' | 'code:tail=enum' ... -> (construction route, kind of the type declared last or None)"""
+    base, _, tail = src.partition(":tail=")
+    return base, (tail or None)
 
 
 def M_DEP():
@@ -107,7 +128,7 @@ def M_DEP():
 
 def build_source(kind):
     sm = source(kind)
-    if kind == "code":
+    if split_src(kind)[0] == "code":
         return M.build_code(sm), sm
     return M.build_sdl(sm), sm
 
